@@ -54,6 +54,8 @@ type FuncContract struct {
 	Key        string
 	Fn         *ssa.Function
 	Modular    bool
+	ModularModes []string
+	ModularAll bool
 	Opaque     bool
 	Pure       bool
 	Recovers   bool
@@ -120,7 +122,7 @@ type Engine struct {
 }
 
 func loadEngine(repoDir string) (*Engine, error) {
-	cfg := &packages.Config{Mode: packages.LoadAllSyntax, Dir: repoDir, BuildFlags: []string{"-tags=verif"},
+	cfg := &packages.Config{Mode: packages.LoadAllSyntax | packages.NeedModule, Dir: repoDir, BuildFlags: []string{"-tags=verif"},
 		Env: append(os.Environ(), "GOFLAGS=-mod=mod", "GOPROXY=off", "GOSUMDB=off", "GOTOOLCHAIN=local")}
 	pkgs, err := packages.Load(cfg, "./...")
 	if err != nil {
@@ -329,6 +331,10 @@ func (e *Engine) parseContractLines(p *packages.Package, file string, lines []st
 			}
 		case "modular":
 			cur.Modular = true
+			cur.ModularModes = append(cur.ModularModes, curModes...)
+			if len(curModes) == 0 {
+				cur.ModularAll = true
+			}
 		case "opaque":
 			cur.Opaque = true
 			cur.Modular = true
@@ -496,6 +502,9 @@ func (e *Engine) contractFor(fn *ssa.Function, mode Mode) *FuncContract {
 	}
 	n := *fc
 	n.Clauses = nil
+	if fc.Modular && !fc.ModularAll && !fc.Opaque {
+		n.Modular = modeMatch(fc.ModularModes, mode.Name) && len(fc.ModularModes) > 0
+	}
 	for _, c := range fc.Clauses {
 		if modeMatch(c.Modes, mode.Name) {
 			n.Clauses = append(n.Clauses, c)
